@@ -169,6 +169,11 @@ class PUSO(BO, PUSOMatrix):
         P = puso_to_pubo(self)
         P._mapping = self.mapping
         P._reverse_mapping = self.reverse_mapping
+        # the mapping may know labels that no longer occur in any term; hand
+        # over the variable caches as well so that the ancilla labels used in
+        # degree reduction start above every mapped label.
+        P._variables = self.variables
+        P._num_binary_variables = self.num_binary_variables
         return P
 
     def to_pubo(self, deg=None, lam=None, pairs=None):
